@@ -181,7 +181,8 @@ theorem V9.skipErr_nonfatal (sid : Nat) (body : Bytes) (e : Err) (h : V9.skipErr
     e.nonfatal = true := Vflow.V9.skipErr_nonfatal sid body e h
 
 /-- **C09(a), V9, one flowset, element missing from the information model.**  A data flowset whose
-template `t` is in the cache, with a body of more than 4 octets on which the record decoder — run on
+template `t` is in the cache, with a body of at least `minRecLen t` octets (one shortest record: the record
+loop is entered — the padding repair replaced the former "more than 4 octets") on which the record decoder — run on
 the body alone — stops with `unknownElem` (a field specifier of `t` names an element that
 `lookupElem` does not know, and the fields before it fit in the body), is skipped in the same way in
 front of any `rest`; the error slot holds `unknownElem`. -/
@@ -189,7 +190,7 @@ theorem V9.decodeSet_skips_unknownElem (addr : Bytes) (fuel : Nat) (st : V9.St) 
     (body rest : Bytes) (t : Template) (r1 : Rd)
     (hsid : sid < 65536) (hlen : 4 + body.length < 65536) (hfuel : 0 < fuel)
     (hrem : st.r.rem = setBytes sid body ++ rest)
-    (hbig : sid > 255) (hlook : st.cache.lookup addr sid = some t) (hbody : body.length > 4)
+    (hbig : sid > 255) (hlook : st.cache.lookup addr sid = some t) (hbody : body.length ≥ V9.minRecLen t)
     (hdec : V9.decodeData t ⟨body, st.r.cnt + 4⟩ = (.error .unknownElem, r1)) :
     V9.decodeSet addr fuel st =
       ({ st with r := ⟨rest, st.r.cnt + (setBytes sid body).length⟩ }, some .unknownElem) :=
@@ -208,7 +209,7 @@ theorem V9.skipped_of_undecodable (addr : Bytes) (c : Cache) (sid : Nat) (body :
 /-- … and a data flowset that runs into an element missing from the information model -/
 theorem V9.skipped_of_unknownElem (addr : Bytes) (c : Cache) (sid : Nat) (body : Bytes) (t : Template)
     (r1 : Rd) (hsid : sid < 65536) (hlen : 4 + body.length < 65536)
-    (hbig : sid > 255) (hlook : c.lookup addr sid = some t) (hbody : body.length > 4)
+    (hbig : sid > 255) (hlook : c.lookup addr sid = some t) (hbody : body.length ≥ V9.minRecLen t)
     (hdec : V9.decodeData t ⟨body, 0⟩ = (.error .unknownElem, r1)) :
     V9.Skipped addr c (setBytes sid body) (some .unknownElem) :=
   Vflow.V9.skipped_of_unknownElem addr c sid body t r1 hsid hlen hbig hlook hbody hdec
@@ -236,7 +237,7 @@ fatal error in state `stT'` with error list `errs'`, then (i) at most 4 octets o
 records and count, `s` appended to the remaining octets) the loop passes after `j` iterations through
 the state `stF'` corresponding to `stT'` with the same error list: what was decoded from `x` does not
 depend on what follows.  The hypothesis that makes this true is that the run on `x` *alone* is clean:
-the loop conditions look at the number of remaining octets (`> 4`), so a run that is starved on `x`
+the loop conditions look at the number of remaining octets (`> 4`, `≥ minLeft`), so a run that is starved on `x`
 alone (fatal short read) can behave differently when more octets follow. -/
 theorem V9.outer_locality (addr : Bytes) (fuelT : Nat) (stT : V9.St) (errs : List Err)
     (stT' : V9.St) (errs' : List Err)
@@ -302,7 +303,7 @@ theorem V9.ex_unknownElem (x : Nat) (hx : lookupElem 0 x = none) :
       (⟨⟨exData2, 64⟩, exCacheBad x, [exRec1]⟩, some .unknownElem) :=
   V9.decodeSet_skips_unknownElem exAddr 1 _ 400 exBadBody exData2 (exTplBad x) ⟨[10, 0, 0, 8], 60⟩
     (by decide) (by decide) (by decide) rfl (by decide)
-    (by simp [exCacheBad, Cache.lookup, Cache.insert]) (by decide)
+    (by simp [exCacheBad, Cache.lookup, Cache.insert]) (by simp [V9.minRecLen, exTplBad, exBadBody])
     (by simp [V9.decodeData, exTplBad, V9.decFields_cons, exBadBody, Rd.readN, ex_lookup_8, hx])
 
 example :
@@ -339,7 +340,8 @@ theorem Ipfix.skipErr_nonfatal (sid : Nat) (e : Err) (h : Ipfix.skipErr sid = so
     e.nonfatal = true := Vflow.Ipfix.skipErr_nonfatal sid e h
 
 /-- **C09(a), Ipfix, one set, element missing from the information model.**  A data set whose
-template `t` is in the cache, with a body of more than 4 octets on which the record decoder — run on
+template `t` is in the cache, with a body of at least `minRecLen t` octets (one shortest record: the record
+loop is entered — the padding repair replaced the former "more than 4 octets") on which the record decoder — run on
 the body alone — stops with `unknownElem` (a field specifier of `t` names an element that
 `lookupElem` does not know, and the fields before it fit in the body), is skipped in the same way in
 front of any `rest`; the error slot holds `unknownElem`. -/
@@ -347,7 +349,7 @@ theorem Ipfix.decodeSet_skips_unknownElem (addr : Bytes) (fuel : Nat) (st : Ipfi
     (body rest : Bytes) (t : Template) (r1 : Rd)
     (hsid : sid < 65536) (hlen : 4 + body.length < 65536) (hfuel : 0 < fuel)
     (hrem : st.r.rem = setBytes sid body ++ rest)
-    (hbig : sid > 255) (hlook : st.cache.lookup addr sid = some t) (hbody : body.length > 4)
+    (hbig : sid > 255) (hlook : st.cache.lookup addr sid = some t) (hbody : body.length ≥ Ipfix.minRecLen t)
     (hdec : Ipfix.decodeData t ⟨body, st.r.cnt + 4⟩ = (.error .unknownElem, r1)) :
     Ipfix.decodeSet addr fuel st =
       ({ st with r := ⟨rest, st.r.cnt + (setBytes sid body).length⟩ }, some .unknownElem) :=
@@ -366,7 +368,7 @@ theorem Ipfix.skipped_of_undecodable (addr : Bytes) (c : Cache) (sid : Nat) (bod
 /-- … and a data set that runs into an element missing from the information model -/
 theorem Ipfix.skipped_of_unknownElem (addr : Bytes) (c : Cache) (sid : Nat) (body : Bytes) (t : Template)
     (r1 : Rd) (hsid : sid < 65536) (hlen : 4 + body.length < 65536)
-    (hbig : sid > 255) (hlook : c.lookup addr sid = some t) (hbody : body.length > 4)
+    (hbig : sid > 255) (hlook : c.lookup addr sid = some t) (hbody : body.length ≥ Ipfix.minRecLen t)
     (hdec : Ipfix.decodeData t ⟨body, 0⟩ = (.error .unknownElem, r1)) :
     Ipfix.Skipped addr c (setBytes sid body) (some .unknownElem) :=
   Vflow.Ipfix.skipped_of_unknownElem addr c sid body t r1 hsid hlen hbig hlook hbody hdec
@@ -394,7 +396,7 @@ fatal error in state `stT'` with error list `errs'`, then (i) at most 4 octets o
 records and count, `s` appended to the remaining octets) the loop passes after `j` iterations through
 the state `stF'` corresponding to `stT'` with the same error list: what was decoded from `x` does not
 depend on what follows.  The hypothesis that makes this true is that the run on `x` *alone* is clean:
-the loop conditions look at the number of remaining octets (`> 4`), so a run that is starved on `x`
+the loop conditions look at the number of remaining octets (`> 4`, `≥ minLeft`), so a run that is starved on `x`
 alone (fatal short read) can behave differently when more octets follow. -/
 theorem Ipfix.outer_locality (addr : Bytes) (fuelT : Nat) (stT : Ipfix.St) (errs : List Err)
     (stT' : Ipfix.St) (errs' : List Err)
@@ -454,7 +456,7 @@ theorem Ipfix.ex_unknownElem (x : Nat) (hx : lookupElem 0 x = none) :
   Ipfix.decodeSet_skips_unknownElem exAddr 1 _ 400 exBadBody exData2 (exTplBad x)
     ⟨[1, 2, 3, 4, 10, 0, 0, 8], 52⟩
     (by decide) (by decide) (by decide) rfl (by decide)
-    (by simp [exCacheBad, Cache.lookup, Cache.insert]) (by decide)
+    (by simp [exCacheBad, Cache.lookup, Cache.insert]) (by simp [Ipfix.minRecLen, Ipfix.specMin, exTplBad, exBadBody])
     (by simp [Ipfix.decodeData, exTplBad, Ipfix.decFields_cons, exBadBody, Rd.readN, ex_lookup_8, hx,
       Ipfix.dataLen, tString, tOctets])
 
